@@ -70,8 +70,14 @@ MembershipOK == Applies => \A i \in DOMAIN T.qgroups :
 \* own - the real evaluator is not trusted there ("tel != X" holds when every tel URN differs from X)
 RefMatch(g) == CASE g.ref = "nottel" -> \A i \in DOMAIN T.after.tels : T.after.tels[i] # g.arg
                  [] OTHER -> g.matches
+\* "created_on > <day>": the contact's calendar day (in the zone of the merged or of the session's own environment, see above)
+\* is later than the argument's - day numbers from Go's time package
 MembershipRef == Applies => \A i \in DOMAIN T.qgroups :
-                   T.qgroups[i].ref # "" => (QMember(T.qgroups[i]) <=> (After.status = "active" /\ RefMatch(T.qgroups[i])))
+                   LET g == T.qgroups[i] IN
+                   CASE g.ref = "" -> TRUE
+                     [] g.ref = "dayafter" -> \/ QMember(g) <=> (After.status = "active" /\ g.cday > g.qday)
+                                              \/ QMember(g) <=> (After.status = "active" /\ g.cdaybase > g.qday)
+                     [] OTHER -> QMember(g) <=> (After.status = "active" /\ RefMatch(g))
 \* a contact that BECOMES non-active leaves all its static groups (becomes: by what the engine did - a contact the host
 \* hands in with a resume is taken as it is, so the comparison starts from the last contact_refreshed of the sprint)
 RefreshIdx   == {i \in DOMAIN T.events : T.events[i].type = "contact_refreshed"}
